@@ -97,6 +97,20 @@ Definition is_singleton (k : bytes) : bool :=
 
 Definition has_cr_or_lf (s : bytes) : bool := memb 13 s || memb 10 s.
 
+(* b" \t\x0b\x0c\r": the whitespace ignored around the request line (no LF) *)
+Definition is_reqline_ws (x : N) : bool :=
+  (x =? 32) || (x =? 9) || (x =? 11) || (x =? 12) || (x =? 13).
+
+(* while header_plus.startswith(b"\r\n"): header_plus = header_plus[2:] *)
+Fixpoint strip_leading_crlf (fuel : nat) (s : bytes) : bytes :=
+  match fuel with
+  | O => s
+  | S f => match s with
+           | 13 :: 10 :: s' => strip_leading_crlf f s'
+           | _ => s
+           end
+  end.
+
 (* get_header_lines *)
 Fixpoint header_lines_go (lines : list bytes) (r : list bytes) : perr + list bytes :=
   (* r is kept reversed *)
@@ -161,7 +175,7 @@ Definition crack_first_line (line : bytes) : option (bytes * bytes * bytes) :=
 
 Definition te_encodings (te : bytes) : list bytes :=
   map (fun e => lower_latin1 (strip_by is_sp_htab e))
-      (filter (fun e => negb (beqb e [])) (split te [44])).
+      (filter (fun e => negb (beqb (strip_by is_sp_htab e) [])) (split te [44])).
 
 Definition int_max_str_digits : N := 4300.
 
@@ -179,7 +193,7 @@ Definition parse_header (a : adj) (p : parser) (hp : bytes) : parser * ph_status
   match find hp CRLF with
   | None => (p, PSError EHeaderInvalid)
   | Some index =>
-    let fl := rstrip_by is_bytes_ws (firstn index hp) in
+    let fl := rstrip_by is_reqline_ws (firstn index hp) in
     let header := skipn (index + 2) hp in
     if has_cr_or_lf fl then (p, PSError EBareCRLFFirstLine)
     else
@@ -207,6 +221,10 @@ Definition parse_header (a : adj) (p : parser) (hp : bytes) : parser * ph_status
             let connection := hget_default h1 s_CONNECTION [] in
             let p := if beqb ver s_1_0 && negb (beqb (lower_latin1 connection) s_keep_alive)
                      then p <| connection_close := true |> else p in
+            (* RFC 9112 6.1: Transfer-Encoding on a request that is not HTTP/1.1 *)
+            let p := if negb (beqb ver s_1_1)
+                        && (match hget h1 s_TRANSFER_ENCODING with Some _ => true | None => false end)
+                     then p <| connection_close := true |> else p in
             (* version 1.1 *)
             let r11 : parser * option perr :=
               if beqb ver s_1_1 then
@@ -231,7 +249,8 @@ Definition parse_header (a : adj) (p : parser) (hp : bytes) : parser * ph_status
                   | (p, None) =>
                     let expect := lower_latin1 (hget_default (headers p) s_EXPECT []) in
                     let p := p <| expect_continue := beqb expect s_100_continue |> in
-                    let p := if beqb (lower_latin1 connection) s_close
+                    let p := if existsb (fun t => beqb (strip_by is_sp_htab t) s_close)
+                                        (split (lower_latin1 connection) [44])
                              then p <| connection_close := true |> else p in
                     (p, None)
                   end
@@ -295,7 +314,7 @@ Definition received (a : adj) (p : parser) (data : bytes) : rcv_res :=
     else
     match index with
     | Some i =>
-      let hp := lstrip_by is_bytes_ws (firstn i s) in
+      let hp := lstrip_by is_reqline_ws (strip_leading_crlf (length s) (firstn i s)) in
       match hp with
       | [] => ROk (p <| empty := true |> <| completed := true |> <| headers_finished := true |>) consumed
       | _ =>
